@@ -143,6 +143,13 @@ def run(args):
     for f, shown in (("2.0", "2.0"), ("0.5", "0.5"), ("1000000.0", "1000000.0"), ("(0.0 - 3.0)", "-3.0"), ("9007199254740993.0", "9007199254740992.0"), ("0.1", "0.1")):
         progs.append(("float", f, "fn main() { let v = %s; let j = [v].to_json(); let back = j.parse_json() as [float]; println(j); println(back[0] == v); }\n" % f,
                       "[%s]\ntrue\n" % shown))
+    # member names are text like any other: a name which arrives decomposed (escaped in the JSON text, or put together at run time)
+    # is the same member as its composed form - every key which keys() returns finds its member, and the round trip keeps it
+    for name, key in (("escaped-accent", "e\\\\u0301"), ("escaped-jamo", "\\\\u1100\\\\u1161"), ("escaped-two-accents", "a\\\\u0323\\\\u0302"), ("plain", "k")):
+        progs.append(("key", name, "fn main() { let o = \"{\\\"%s\\\":1}\".parse_json() as { ? }; let ks = o.keys(); println(ks.len(), ks[0].len() < 3, o.get(ks[0])); "
+                      "let back = o.to_json().parse_json() as { ? }; println(back == o, back.get(ks[0]), back.keys() == ks); "
+                      "let p = new { ? }; for c in ks[0] { p.set(c, 1); } println(p.keys().len()); }\n" % key,
+                      "1 true Some(1)\ntrue Some(1) true\n%d\n" % (1 if name != "plain" else 1)))
     res = pool.map([{"op": "run", "id": i, "a": {"modules": {"main": src}, "entry": "main", "backend": b, "timeout_ms": 8000}}
                     for i, (k, n, src, want) in enumerate(progs) for b in ("vm", "tree")], timeout=30)
     k = 0
